@@ -1154,3 +1154,43 @@ Example C03_ex_union_two_conversions :
   | None => False
   end.
 Proof. vm_compute. reflexivity. Qed.
+
+(* the SyncML data-type rule on both sides, by computation: vObject data in <Data> under <Add>/<Item> - the XML front end adds the
+   CDATA node (C02f_added_cdata_is_canonical), the encoder writes it as ONE OPAQUE, the tree builder RE-CREATES the CDATA node
+   (C03b_data_rule_recreates_cdata), the generator writes the CDATA section again: two trips, the same XML and the same WBXML.
+   With a CR LF inside the data the second XML differs under THIS model of the parser (one character-data event per text: the
+   reader normalises CR LF to LF, and only a LONE LF event is turned back into CR LF by the front end - Expat delivers line ends as
+   separate events; C02f_lone_lf_differs): C03_ex_union_syncml_crlf_needs_split_events. *)
+Definition exs_L : lang := nth 19 main_table (mk_lang 0 0 None None None None None None None None).
+Definition exs_o := EncWbxml.mk_opts 2 false false false.
+Definition exs_o' := mk_w2x 2101 0 0 0 false.
+Definition exs_root (payload : EncWbxml.bytes) : EncWbxml.node :=
+  EncWbxml.NElt (EncWbxml.TagTok 0 45 0 (XmlFront.bs "SyncML")) []
+    [EncWbxml.NElt (EncWbxml.TagTok 0 5 0 (XmlFront.bs "Add")) []
+       [EncWbxml.NElt (EncWbxml.TagTok 0 20 0 (XmlFront.bs "Item")) []
+          [EncWbxml.NElt (EncWbxml.TagTok 0 15 0 (XmlFront.bs "Data")) [] [EncWbxml.NCData [EncWbxml.NText payload]]]]].
+Definition exs_trip (ev : list XmlFront.event) : option (bytes * bytes) :=
+  match r_out (ConvXml2Wbxml.xml2wbxml_events main_table EncWbxmlTables.main_btable ex_sub ev true exs_o [60]) with
+  | Some w => match r_out (wbxml2xml_model main_table exs_o' w) with Some x0 => Some (w, removelast x0) | None => None end
+  | None => None
+  end.
+Definition exs_two_trips (payload : EncWbxml.bytes) : option (bool * bool * bool) :=
+  match exs_trip (XmlFrontEvents.events_of exs_L (exs_root payload)) with
+  | Some (w1, x1) =>
+    match XmlRead.read_xml_auto x1 with
+    | XmlRead.ROk d =>
+      match exs_trip (events_of_info_ns d) with
+      | Some (w2, x2) => Some (bytes_eqb x2 x1, bytes_eqb w2 w1, match EncWbxml.find_sub (XmlFront.bs "<![CDATA[") x1 with Some _ => true | None => false end)
+      | None => None
+      end
+    | _ => None
+    end
+  | None => None
+  end.
+Example C03_ex_union_syncml_vobject_two_trips :
+  l_id exs_L = 2101 /\ XmlFrontEvents.root_canon exs_L XmlFrontInverse.no_emb (exs_root (XmlFront.bs "BEGIN:VCARD END:VCARD")) = true /\
+  exs_two_trips (XmlFront.bs "BEGIN:VCARD END:VCARD") = Some (true, true, true).
+Proof. repeat split; vm_compute; reflexivity. Qed.
+Example C03_ex_union_syncml_crlf_needs_split_events :
+  exs_two_trips (XmlFront.bs "BEGIN:VCARD" ++ [13; 10] ++ XmlFront.bs "END:VCARD") = Some (false, false, true).
+Proof. vm_compute. reflexivity. Qed.
